@@ -12,6 +12,7 @@ SIM = 'tracklib.algo.simplification'
 TRK = 'tracklib.core.track'
 OPS = 'tracklib.core.operators'
 UTL = 'tracklib.core.utils'
+COORDS = 'tracklib.core.obs_coords'
 
 CHORDS = [(5, 0), (0, 5), (3, 4), (-4, 3), (1, 1), (-2, -7), (0, 0), (0.001, 2)]
 
@@ -74,7 +75,7 @@ class C16(Check):
         return js
 
     def patches(self, job):
-        p = std_patches([GEO, TRK, OPS, UTL], math=True, ints=True)
+        p = std_patches([GEO, TRK, OPS, UTL, COORDS], math=True, ints=True)
         p += [(GEO, 'min', core.sym_min), (GEO, 'max', core.sym_max)]
         return p
 
@@ -135,6 +136,8 @@ class C16(Check):
                 px, py = g('px', -50, 50), g('py', -50, 50)
                 eps = self._eps(eng, None, 60)
                 pts = [(1.0, 2.0), (px, py), (1.0 + dx, 2.0 + dy)]
+                # boundary hints for the concolic fallback: the interior fix coincides with an end (repeated positions are named by the property)
+                ctx.hints = [z3.And(px.z == 1 + dx, py.z == 2 + dy), z3.And(px.z == 1, py.z == 2)]
                 tr = make_track(pts)
                 obs = [tr.getObs(i) for i in range(3)]
                 res = self._run_simplify(tr, eps, 1)
